@@ -79,7 +79,7 @@ mod verif_replay_w {
 ''' % arr
 
 
-def search(repo: str, tier: str = 'quick') -> dict:
+def _search(repo: str, tier: str = 'quick') -> dict:
     root = scratch_repo(repo)
     extra = os.path.join(root, 'verif_extra_doc.wsdl')
     with open(extra, 'w') as f:
@@ -104,3 +104,14 @@ def search(repo: str, tier: str = 'quick') -> dict:
     if res['documents'] == 0:
         res['error'] = outp[-1500:]
     return res
+
+
+_MEMO = {}
+
+
+def search(repo, *a, **kw):
+    """one run of the harness per check process and tree (the result is shared by all obligations it decides)"""
+    key = (repo, a, tuple(sorted(kw.items())))
+    if key not in _MEMO:
+        _MEMO[key] = _search(repo, *a, **kw)
+    return _MEMO[key]
